@@ -216,3 +216,65 @@ fn c13_phrase_prefix_single_seek_adv() {
 fn c13_phrase_prefix_single_prog2() {
     prog::<2, 0, 3>();
 }
+
+// ---------------------------------------------------------------------------------------------
+// PhraseScorer (two terms, no slop) over the same array postings: "a b" matches document d iff
+// some position p of `a` in d has p + 1 among the positions of `b` in d.
+// ---------------------------------------------------------------------------------------------
+use crate::query::phrase_query::PhraseScorer;
+
+fn phrase_matches(a: &ArrPostings, b: &ArrPostings, d: DocId) -> bool {
+    matches(a, b, d)
+}
+
+fn phrase_next(a: &ArrPostings, b: &ArrPostings, target: DocId) -> DocId {
+    next_match(a, b, target)
+}
+
+fn phrase_prog<const OPLO: u8, const OPHI: u8>() {
+    let a = ArrPostings::any(300);
+    let b = ArrPostings::any(300);
+    let mut ds = PhraseScorer::new(vec![(0usize, a), (1usize, b)], None, FieldNormReader::constant(100, 1), 0);
+    assert_eq!(ds.doc(), phrase_next(&a, &b, 0));
+    let op: u8 = kani::any();
+    kani::assume(op >= OPLO && op < OPHI);
+    let cur = ds.doc();
+    if op == 0 {
+        let got = ds.advance();
+        assert_eq!(got, if cur == TERMINATED { TERMINATED } else { phrase_next(&a, &b, cur + 1) });
+    } else if op == 1 {
+        let t: DocId = kani::any();
+        kani::assume(t >= cur && t <= TERMINATED);
+        let got = ds.seek(t);
+        assert_eq!(got, if t == TERMINATED { TERMINATED } else { phrase_next(&a, &b, t) });
+        assert_eq!(ds.doc(), got);
+    } else {
+        let t: DocId = kani::any();
+        kani::assume(t >= cur && t < TERMINATED);
+        let exp = phrase_next(&a, &b, t);
+        match ds.seek_danger(t) {
+            SeekDangerResult::Found => {
+                assert!(exp == t);
+                assert_eq!(ds.doc(), t);
+            }
+            SeekDangerResult::SeekLowerBound(lb) => {
+                assert!(exp != t);
+                assert!(lb == TERMINATED || (lb > t && lb <= exp));
+            }
+        }
+    }
+    kani::cover!(ds.doc() != TERMINATED && ds.doc() > 0, "ends on a matching document");
+    std::mem::forget(ds);
+}
+
+#[kani::proof]
+#[kani::unwind(5)]
+fn c13_phrase_scorer_seek_adv() {
+    phrase_prog::<0, 2>();
+}
+
+#[kani::proof]
+#[kani::unwind(5)]
+fn c13_phrase_scorer_seek_danger() {
+    phrase_prog::<2, 3>();
+}
